@@ -1,7 +1,7 @@
 (* C06 property theorems.  Nothing but statements closed by `exact`, a pin, and
    Print Assumptions.  The driver parses this file's output. *)
 From ZV.Common Require Import Base.
-From ZV.C06 Require Import Model ModelGold ModelEasy ModelIdx ModelFast Spec ProofsBasic ProofsScan ProofsRefine ProofsSmall ProofsGoldRefine ProofsEasy ProofsIdxRefine ProofsFast.
+From ZV.C06 Require Import Model ModelGold ModelEasy ModelIdx ModelFast ModelStr Spec ProofsBasic ProofsScan ProofsRefine ProofsSmall ProofsGoldRefine ProofsEasy ProofsIdxRefine ProofsFast ProofsStr.
 Open Scope N_scope.
 
 (* normalize_hash never produces a slot marker, whatever the hasher returned *)
@@ -129,3 +129,22 @@ Theorem get_fast_unmasked_refuted : exists ops, smf_run false (hasher 0) (Small 
 Proof. exact get_fast_unmasked_refuted_proof. Qed.
 Check get_fast_unmasked_refuted : exists ops, smf_run false (hasher 0) (Small []) ops <> srun [] ops.
 Print Assumptions get_fast_unmasked_refuted.
+
+(* --- extension: HashStrMap = std::collections::HashMap<String, V> (trusted to be a map) + two counters --- *)
+(* the wrapper's entry points answer like a mathematical map for every history (op code 8 = statistics() is an
+   observation outside the property and excluded here); the counters never influence an answer *)
+Theorem hashstr_refines_map :
+  forall ops, Forall (fun o => fst (fst o) <> 8) ops -> Forall2 obs_agree (hs_run hs_new ops) (srun [] ops).
+Proof. exact hashstr_refines_map_proof. Qed.
+Check hashstr_refines_map :
+  forall ops, Forall (fun o => fst (fst o) <> 8) ops -> Forall2 obs_agree (hs_run hs_new ops) (srun [] ops).
+Print Assumptions hashstr_refines_map.
+
+(* in every reachable state (statistics calls included): len() <= unique_keys <= total_inserts, so that
+   interning_ratio() = 1 - unique/total lies in [0, 1) *)
+Theorem hashstr_counters :
+  forall ops, let m := hs_exec hs_new ops in nlen (hs_map m) <= hs_unique m /\ hs_unique m <= hs_total m.
+Proof. exact hashstr_counters_proof. Qed.
+Check hashstr_counters :
+  forall ops, let m := hs_exec hs_new ops in nlen (hs_map m) <= hs_unique m /\ hs_unique m <= hs_total m.
+Print Assumptions hashstr_counters.
